@@ -49,7 +49,7 @@ theorem esteps_seg {s s' : St} (h : ESteps s s') :
 /-! ### Effect instructions are the effect events of the reading -/
 
 def DStmt.isEff : DStmt → Bool
-  | .letD _ _ _ | .assign _ _ | .callS _ | .ret _ | .jret _ => true
+  | .letD _ _ _ | .assign _ _ | .callS _ | .ret _ | .jret _ _ => true
   | _ => false
 
 def countEff (l : List DStmt) : Nat := (l.filter DStmt.isEff).length
@@ -146,7 +146,7 @@ theorem cnt_callS (c : CallS) (s : SpecSt) :
   unfold ExprValue.calls
   rfl
 
-theorem cnt_jret (e : Expr) (s : SpecSt) : countEff (specJret false e s).out = countEff s.out + (e.calls + 1) := by
+theorem cnt_jret (e : Expr) (s : SpecSt) : countEff (specJret false rg e s).out = countEff s.out + (e.calls + 1) := by
   unfold specJret
   simp only [SpecSt.emits, SpecSt.emit]
   rw [countEff_append, countEff_append, ce_specExpr]
